@@ -80,3 +80,13 @@ claim("C01", "DESIGN.md §3 C01",
       "Sibling-acceptor coverage, not language inclusion: the keys pint's strict walker accepts are a subset of the yaml tags of the vendored rulefmt types and every key switch rejects by default; every rejection reason of the vendored Prometheus loader (41 enumerated, site counts re-checked against the vendored source on every run) has a counterpart on the pint side — a guarded error exit identified by its predicate over role-normalised locals, or an unconditionally registered, default-enabled, offline check that validates every field/label/annotation it is responsible for and reports >= Bug; parse errors at file, group and rule level are routed to the always-enabled Fatal error check; the strict gate rejects multi-document files. Six genuine acceptance gaps found by these rules were fixed. Equivalence on exact byte strings is NOT decided.",
       SA_NOTE,
       "static analysis: table agreement against vendored struct tags, enumeration of guarded error exits (lexical guards incl. first-match switch semantics and if-init lookups), registration/Meta table checks")
+
+claim("C04", "DESIGN.md §3 C04/C12",
+      "THIN claim (soundness of the label-flow abstraction itself is not decidable here). Decided tables the soundness argument rests on: walkNode names every parser.Expr implementer of the vendored PromQL parser; every non-experimental vendored function has a case in parsePromQLFunc with the vendored ReturnType and every non-experimental aggregator a case in walkAggregation; every site that can make CanHaveLabel false sits in a context (node kind, operator, function, guard) of the reference set of label-dropping PromQL constructs; the `non-existent label` report is dominated by !IsDead and !CanHaveLabel and keeps the group-label exemption.",
+      SA_NOTE,
+      "static analysis: exhaustiveness against the vendored module's types and tables, enumeration of narrowing sites with their semantic context (case labels + guards) against a reference table, dominance on go/cfg")
+
+claim("C12", "DESIGN.md §3 C04/C12",
+      "THIN claim (that a dead verdict is right for all data is not decidable here). Decided: node/function/aggregator exhaustiveness (as C04); IsDead is set only in the four reference situations (failed canJoin, `unless on()` against an always-returning unconditional side, `or` after a side that cannot be empty, static comparison); calculateStaticReturn has a case for each of the vendored parser's six comparison operators and declares dead exactly under the negated comparison on (ls, rs), arithmetic cases never do; promql/impossible reports only IsDead sources.",
+      SA_NOTE,
+      "static analysis: operator-table agreement (Go comparison vs PromQL operator constant), context enumeration of IsDead stores, dominance on go/cfg")
